@@ -212,7 +212,7 @@ def rs_str(s):
 
 
 QUICK_ACC = {"PeriodType": "7", "u8": "7", "ValueType": "0.25", "bool": "true", "Source": "HLC3", "M": "ema-7"}
-QUICK_REJ = {"PeriodType": "x", "u8": "x", "ValueType": "abc", "bool": "1", "Source": "ohlc4", "M": "sma"}
+QUICK_REJ = {"PeriodType": "256", "u8": "256", "ValueType": "abc", "bool": "1", "Source": "ohlc4", "M": "sma-256"}  # out-of-range numbers are the subtle rejected texts (a parse through a wider type accepts them)
 WEIGHT = {"PeriodType": 1, "u8": 1, "ValueType": 1.5, "bool": 1, "Source": 3, "M": 3, "unknown": 1.5}
 BUDGET = 12  # weight per harness (a harness with more set calls costs CBMC superlinearly: every free() lengthens the deallocation chain every later pointer check looks at)
 
